@@ -258,3 +258,55 @@ func VerifC33_closeStream() {
 	vrt.Assert(uc+int64(got) == int64(unread), "C33/unread-octets-of-closed-stream-returned-to-conn-window")
 	vrt.Assert(int64(sc.inflow.n) == connBefore+uc, "C33/conn-window-bookkeeping")
 }
+
+// VerifC33_resetAfterPartialRead: a three-step history on one request stream - the client sends a DATA
+// frame (symbolic Length = 1..D data octets + padding, inside both windows), the handler reads 0..d of
+// the octets (pipe Read + noteBodyRead, what RequestBody.Read makes the serve loop do), then the client
+// cancels the upload with RST_STREAM. Whatever part the handler had not read can never be read (the body
+// buffer is released) and the client keeps using the connection window for its other streams, so after
+// the three steps the connection WINDOW_UPDATEs queued must add up to the whole frame.
+func VerifC33_resetAfterPartialRead() {
+	sc, _ := newConnH2()
+	sc.writingFrame = vrt.Choose("writerBusy", 2) == 1
+	st := mkStreamC33(sc, 0, false)
+	st.declBodyBytes = -1
+	sc.streams[st.id] = st
+	sc.inflow.n = vrt.I32("connWindow")
+	vrt.Assume(sc.inflow.n >= 0)
+
+	d := vrt.Range("dataLen", 1, vrt.Param("D", 3))
+	data := vrt.Bytes("data", d)
+	length := vrt.U32("frameLength") // data + pad-length octet + padding
+	vrt.Assume(length >= uint32(d) && length < 1<<24)
+	// a client that respects both windows
+	vrt.Assume(int64(length) <= int64(sc.inflow.n) && int64(length) <= int64(st.inflow.n))
+	var flags Flags
+	if length > uint32(d) {
+		flags |= FlagDataPadded
+	}
+	f := &DataFrame{FrameHeader: FrameHeader{valid: true, Type: FrameData, Flags: flags, Length: length, StreamID: st.id}, data: data}
+	connBefore := int64(sc.inflow.n)
+
+	if err := sc.processData(f); err != nil {
+		vrt.Assert(false, "C33/data-inside-the-windows-accepted")
+		return
+	}
+
+	// the handler reads r of the d octets
+	r := vrt.Range("handlerRead", 0, d)
+	if r > 0 {
+		buf := make([]byte, r)
+		n, _ := st.body.Read(buf)
+		vrt.Assert(n == r, "C33/accepted-data-reaches-the-body")
+		sc.noteBodyRead(st, n)
+	}
+
+	// the client gives up on the stream
+	sc.processResetStream(&RSTStreamFrame{FrameHeader: FrameHeader{valid: true, Type: FrameRSTStream, Length: 4, StreamID: st.id}, ErrCode: ErrCodeCancel})
+	vrt.Assert(sc.streams[st.id] == nil, "C33/reset-stream-left-the-map")
+
+	uc, _ := queuedWindowUpdatesC33(sc, st.id)
+	still := readableC33(st) // what a handler could still get out of the body (and credit later)
+	vrt.Assert(uc+int64(still) == int64(length), "C33/octets-of-a-stream-reset-by-the-client-returned-to-conn-window")
+	vrt.Assert(int64(sc.inflow.n) == connBefore-int64(length)+uc, "C33/conn-window-bookkeeping")
+}
